@@ -3,17 +3,6 @@
 From GoCar Require Import Bytes Varint Cid Header Frame V2Header Scan Index Store CliCmds.
 From GoCarProofs Require Import BytesFacts VarintFacts CidFacts HeaderFacts ScanFacts ScanTrunc ScanTruncV2 StoreInv CliBase CliWalk CliProducers.
 
-(* executable guard of the indexed verify theorem: the index bytes parse and answer for every
-   non-identity CID (index soundness/completeness and its serialisation are C03 / C11) *)
-Definition index_answers (ibytes : bytes) (cids : list bytes) : bool :=
-  match idx_read ibytes with
-  | Ok (i, _) => forallb (idx_knows i) cids
-  | Err _ => false
-  end.
-
-Definition roots_present (roots : list bytes) (bs : list block) : bool :=
-  forallb (cid_in (map fst bs)) roots.
-
 Set Default Proof Using "All".
 Section Closure.
   Variable hok : bytes -> bytes -> option bool.
